@@ -203,7 +203,7 @@ Proof.
       * intros r Hr. destruct (Sr r Hr) as [H|(t & Ht & H1 & H2)]; [auto|].
         right. exists t. split; [exact Ht|lia].
       * intros er ot H. rewrite E in H. injection H as ->.
-        destruct (Se er ot E) as (t & -> & [H1 _] & Hu). exists t. split; [reflexivity|]. split; [lia|exact Hu].
+        destruct (Se er ot eq_refl) as (t & -> & [H1 _] & Hu). exists t. split; [reflexivity|]. split; [lia|exact Hu].
     + rewrite gseq_none by exact E. cbn [fst snd]. split.
       * intros r Hr. apply in_app_iff in Hr as [Hr|Hr].
         -- destruct (Sr r Hr) as [H|(t & Ht & H1 & H2)]; [auto|]. right. exists t. split; [exact Ht|lia].
@@ -237,7 +237,7 @@ Lemma before_ok_gseq_untagged a b :
   (forall er t, snd a <> Some (er, Some t)) -> (forall t, untagged t (fst a)) -> before_ok b -> before_ok (gseq a b).
 Proof.
   intros Ha Hu Hb er t. destruct (snd a) as [x|] eqn:E.
-  - rewrite (gseq_some _ _ x E). rewrite E. intros H. exfalso. exact (Ha er t H).
+  - rewrite (gseq_some _ _ x E). intros H. exfalso. apply (Ha er t). rewrite <- H. symmetry. exact E.
   - rewrite gseq_none by exact E. cbn. intros H. apply untagged_app; [apply Hu|exact (Hb er t H)].
 Qed.
 
